@@ -18,6 +18,8 @@ RULE = ("(x, c1, c2) triples; x from the feature-tagged generator (root <svg>, h
 ASSUMPTIONS = ["only documents whose outermost element is <svg> (single root) are judged"]
 
 C2_FIXED = [None, dict(debug=True, meta=True)]
+# 'under any configuration': the limits of the second pass are part of it (already-processed SVG is passed through, whatever they are)
+C2_LIMITS = [dict(depth=0), dict(depth=1), dict(depth=2), dict(depth=3), dict(loop=0), dict(var=0), dict(depth=2, loop=1, var=1, debug=True)]
 EDGE_DOCS = ["<svg/>", "<svg></svg>", "<svg> </svg>", "<svg>\n</svg>", "<svg><!-- c --></svg>", "<!-- c --><svg><rect wh=\"1\"/></svg><!-- d -->",
              "<?xml version=\"1.0\"?>\n<svg><rect wh=\"1\" text=\"a\"/></svg>\n", "<svg><svg><rect wh=\"1\"/></svg></svg>",
              "<svg width=\"10cm\"><rect wh=\"4 2\"/></svg>", "<svg viewBox=\"0 0 1 1\" height=\"50%\"><rect wh=\"4 2\"/></svg>",
@@ -68,7 +70,7 @@ def check_case(ctx, case):
 
 
 def draw_c2s(rng, n):
-    return C2_FIXED + [docgen.gen_cfg(rng) for _ in range(n)]
+    return C2_FIXED + [rng.choice(C2_LIMITS)] + [docgen.gen_cfg(rng) for _ in range(n)]
 
 
 def run_shard(ctx):
